@@ -41,6 +41,9 @@ package backend
 //@ ghost func brEvB(rs ref, i int) ref
 //@ ghost func brEvO(rs ref, i int) int
 //@ ghost func brEvL(rs ref, i int) int
+// brDropped(rs, i): the i-th result is one of a transaction that was dropped before the ante handler (non-zero code and no
+// ethereum_tx event: x/evm/types TxWasDroppedPreAnteHandleDueToBlockGasExcess)
+//@ ghost func brDropped(rs ref, i int) bool
 // the receipt view of the i-th result of a block-results response
 //@ ghost func rsErr(rs ref, i int) bool = evRcErr(brEvB(rs, i), brEvO(rs, i), brEvL(rs, i))
 //@ ghost func rsHas(rs ref, i int) bool = evRcHas(brEvB(rs, i), brEvO(rs, i), brEvL(rs, i))
@@ -86,6 +89,7 @@ package backend
 //@   modifies nothing
 //@   ensures err == nil ==> res != nil
 //@   ensures res != nil ==> (forall j int :: {brEvB(res, j)} {brEvO(res, j)} {brEvL(res, j)} (0 <= j && j < len(res.TxsResults)) ==> (res.TxsResults[j] != nil && brEvB(res, j) == base(res.TxsResults[j].Events) && brEvO(res, j) == off(res.TxsResults[j].Events) && brEvL(res, j) == len(res.TxsResults[j].Events)))
+//@   ensures res != nil ==> (forall j int :: {brDropped(res, j)} (0 <= j && j < len(res.TxsResults)) ==> brDropped(res, j) == (res.TxsResults[j].Code != 0 && !(exists k int :: {res.TxsResults[j].Events[k].Type} 0 <= k && k < len(res.TxsResults[j].Events) && res.TxsResults[j].Events[k].Type == evmtypes.EventTypeEthereumTx)))
 //@   panics never
 
 //@ func (b *Backend) BaseFee(blockRes *cmtrpctypes.ResultBlockResults) (fee *big.Int, err error)
@@ -94,11 +98,42 @@ package backend
 //@   ensures fee != nil ==> (fresh(fee) && bigval[fee] >= 0 && bigval[fee] < pow2(256))
 //@   panics never
 
+// ---------------------------------------------------------------------------------------------
+// blocks.go — EthMsgsFromCometBFTBlock (C14): which transactions of a block are its Ethereum transactions for the JSON-RPC
+// views, and in which order. rpcElig(j): not dropped before the ante handler, decodable, exactly one message and that a
+// MsgEthereumTx. The eth tx index of an eligible transaction = number of eligible transactions before it (rpcCountTo).
+// The indexer's rule (indexer.IndexBlock, ixElig) is the same except that it (a) asks app/antedl/utils.IsEthereumTx
+// (additionally: no non-critical extension option, at most the one Ethereum extension option) and (b) skips a result
+// whose index attribute is malformed; both differences concern transactions consensus never executes as Ethereum
+// transactions / events consensus never emits (not decided here).
+// ---------------------------------------------------------------------------------------------
+//@ ghost func rpcElig(dec ref, blk ref, rs ref, j int) bool = !brDropped(rs, j) && txDecodes(dec, blkTxBytes(blk, j)) && singleEthBytes(blkTxBytes(blk, j))
+//@ ghost func rpcCountTo(dec ref, blk ref, rs ref, n int) int
+//@ axiom[C14] rpc_count_zero: forall d ref, b ref, r ref, n int :: {rpcCountTo(d, b, r, n)} n <= 0 ==> rpcCountTo(d, b, r, n) == 0
+//@ axiom[C14] rpc_count_step: forall d ref, b ref, r ref, n int :: {rpcCountTo(d, b, r, n + 1)} n >= 0 ==> rpcCountTo(d, b, r, n + 1) == rpcCountTo(d, b, r, n) + (rpcElig(d, b, r, n) ? 1 : 0)
+
+// The two quantified preconditions are the naming facts of the client-call summaries (established by every caller that
+// obtained the two responses from CometBFTBlockByNumber / CometBFTBlockResultByNumber).
 //@ func (b *Backend) EthMsgsFromCometBFTBlock(resBlock *cmtrpctypes.ResultBlock, blockRes *cmtrpctypes.ResultBlockResults) (msgs []*evmtypes.MsgEthereumTx)
-//@   assumed
+//@   requires b != nil && b.logger != nil && b.clientCtx.TxConfig != nil && resBlock != nil && resBlock.Block != nil && blockRes != nil
+//@   requires forall i int :: {blkTxBytes(resBlock, i)} (0 <= i && i < len(resBlock.Block.Data.Txs)) ==> blkTxBytes(resBlock, i) == bytes(resBlock.Block.Data.Txs[i])
+//@   requires forall j int :: {brDropped(blockRes, j)} (0 <= j && j < len(blockRes.TxsResults)) ==> (blockRes.TxsResults[j] != nil && brDropped(blockRes, j) == (blockRes.TxsResults[j].Code != 0 && !(exists k int :: {blockRes.TxsResults[j].Events[k].Type} 0 <= k && k < len(blockRes.TxsResults[j].Events) && blockRes.TxsResults[j].Events[k].Type == evmtypes.EventTypeEthereumTx)))
 //@   modifies txSrc
-//@   ensures forall i int :: (0 <= i && i < len(msgs)) ==> msgs[i] != nil
+//@   ensures[C14.eth_msgs_count] len(msgs) == rpcCountTo(b.clientCtx.TxConfig.TxDecoder(), resBlock, blockRes, len(resBlock.Block.Data.Txs))
+//@   ensures[C14.eth_msgs_position] forall j int :: (0 <= j && j < len(resBlock.Block.Data.Txs) && rpcElig(b.clientCtx.TxConfig.TxDecoder(), resBlock, blockRes, j)) ==> (msgs[rpcCountTo(b.clientCtx.TxConfig.TxDecoder(), resBlock, blockRes, j)] != nil && bytes(msgs[rpcCountTo(b.clientCtx.TxConfig.TxDecoder(), resBlock, blockRes, j)].MarshalledTx) == ethTxOfBytes(blkTxBytes(resBlock, j)))
+//@   ensures[C14.eth_msgs_non_nil] forall k int :: (0 <= k && k < len(msgs)) ==> msgs[k] != nil
+//@   ensures[C14.eth_msgs_tx_src_frame] forall r ref :: !fresh(r) ==> txSrc[r] == old(txSrc[r])
 //@   panics any
+//@ loop 1
+//@   modifies txSrc, contents(result)
+//@   invariant[C14.eth_msgs_loop_bounds] -1 <= rangeindex && rangeindex < len(resBlock.Block.Data.Txs) && 0 <= len(result)
+//@   invariant[C14.eth_msgs_loop_count] len(result) == rpcCountTo(b.clientCtx.TxConfig.TxDecoder(), resBlock, blockRes, rangeindex + 1)
+//@   invariant[C14.eth_msgs_loop_position] forall j int :: (0 <= j && j <= rangeindex && rpcElig(b.clientCtx.TxConfig.TxDecoder(), resBlock, blockRes, j)) ==> (result[rpcCountTo(b.clientCtx.TxConfig.TxDecoder(), resBlock, blockRes, j)] != nil && bytes(result[rpcCountTo(b.clientCtx.TxConfig.TxDecoder(), resBlock, blockRes, j)].MarshalledTx) == ethTxOfBytes(blkTxBytes(resBlock, j)))
+//@   invariant[C14.eth_msgs_loop_count_bounds] forall j int :: {rpcCountTo(b.clientCtx.TxConfig.TxDecoder(), resBlock, blockRes, j)} (0 <= j && j <= rangeindex + 1) ==> (0 <= rpcCountTo(b.clientCtx.TxConfig.TxDecoder(), resBlock, blockRes, j) && rpcCountTo(b.clientCtx.TxConfig.TxDecoder(), resBlock, blockRes, j) <= len(result))
+//@   invariant[C14.eth_msgs_loop_count_strict] forall j int :: {rpcCountTo(b.clientCtx.TxConfig.TxDecoder(), resBlock, blockRes, j)} (0 <= j && j <= rangeindex && rpcElig(b.clientCtx.TxConfig.TxDecoder(), resBlock, blockRes, j)) ==> rpcCountTo(b.clientCtx.TxConfig.TxDecoder(), resBlock, blockRes, j) < len(result)
+//@   invariant[C14.eth_msgs_loop_result_fresh] (base(result) == nil && cap(result) == 0) || fresh(base(result))
+//@   invariant[C14.eth_msgs_loop_non_nil] forall k int :: (0 <= k && k < len(result)) ==> result[k] != nil
+//@   invariant[C14.eth_msgs_loop_tx_src_frame] forall r ref :: !fresh(r) ==> txSrc[r] == old(txSrc[r])
 
 // ---------------------------------------------------------------------------------------------
 // utils.go
@@ -113,7 +148,7 @@ package backend
 //@   ensures err != nil ==> ic == nil
 //@   ensures ic != nil ==> (fresh(ic) && ic.Receipt != nil && fresh(ic.Receipt) && ic.EffectiveGasPrice != nil && ic.Receipt.BlockNumber != nil && bigval[ic.Receipt.BlockNumber] == evRcBlockNumber(base(events), off(events), len(events)))
 //@   ensures ic != nil ==> (ic.Receipt.GasUsed == evRcGasUsed(base(events), off(events), len(events)) && ic.Receipt.CumulativeGasUsed == evRcCumGas(base(events), off(events), len(events)) && ic.Receipt.Status == evRcStatus(base(events), off(events), len(events)) && ic.Receipt.Type == evRcType(base(events), off(events), len(events)) && ic.Receipt.TransactionIndex == evRcTxIndex(base(events), off(events), len(events)) && ic.Receipt.TxHash == evRcTxHash(base(events), off(events), len(events)) && ic.Receipt.ContractAddress == evRcContract(base(events), off(events), len(events)) && len(ic.Receipt.Logs) == evRcNLogs(base(events), off(events), len(events)))
-//@   ensures ic != nil ==> (len(ic.Receipt.Logs) == 0 || fresh(base(ic.Receipt.Logs)))
+//@   ensures ic != nil ==> ((len(ic.Receipt.Logs) == 0 || fresh(base(ic.Receipt.Logs))) && off(ic.Receipt.Logs) == 0)
 //@   ensures ic != nil ==> (forall i int :: (0 <= i && i < len(ic.Receipt.Logs)) ==> (ic.Receipt.Logs[i] != nil && fresh(ic.Receipt.Logs[i])))
 //@   ensures ic != nil ==> (forall i int, j int :: (0 <= i && i < j && j < len(ic.Receipt.Logs)) ==> ic.Receipt.Logs[i] != ic.Receipt.Logs[j])
 //@   panics never
